@@ -36,6 +36,13 @@ func zzFailedCanaryStore() (*fakeapi.Client, *datadoghqv1alpha1.ExtendedDaemonSe
 	rsA := zzRSOf(ds, tplA, "foo-a", nondet.Base().Add(-24*time.Hour))
 	rsB := zzRSOf(ds, ds.Spec.Template, "foo-b", createdB)
 	zzSetCond(rsB, datadoghqv1alpha1.ConditionTypeCanaryFailed, true, failedAt)
+	// somebody may be getting rid of the bad canary by hand (foreground deletion: deletionTimestamp set, a
+	// finalizer keeps it listed): it is still the failed canary, the rollback still happens
+	if nondet.Bool("rsB.underForegroundDeletion") {
+		t := metav1.NewTime(nondet.Base().Add(-10 * time.Second))
+		rsB.DeletionTimestamp = &t
+		rsB.Finalizers = []string{"foregroundDeletion"}
+	}
 	if nondet.Bool("rsB.pausedCond") {
 		zzSetCond(rsB, datadoghqv1alpha1.ConditionTypeCanaryPaused, true, failedAt)
 	}
